@@ -159,24 +159,26 @@ def strip_comments(txt):
     return "".join(out)
 
 
-def audit():
-    """grep audit over coq/ sources (comments stripped): returns list of offending (file, line)."""
+def audit(only=None):
+    """grep audit over coq/ sources (comments stripped): returns list of offending (file, line).
+    only = set of paths relative to coq/ (a dependency closure) restricts the audit to those files."""
     bad = []
-    for d, _, fs in os.walk(COQ):
-        if os.path.basename(d) == "cases":
-            continue
-        for f in fs:
-            if not f.endswith(".v"):
-                continue
-            p = os.path.join(d, f)
-            body = strip_comments(open(p).read())
-            for ln, line in enumerate(body.split("\n"), 1):
-                if AUDIT_RE.search(line):
-                    bad.append((os.path.relpath(p, VERIF), line.strip()))
-                if re.match(r"\s*(Variable|Variables|Hypothesis|Hypotheses|Context)\b", line):
-                    # allowed only inside a Section: checked structurally
-                    if not _inside_section(body, ln):
-                        bad.append((os.path.relpath(p, VERIF), "section-less " + line.strip()))
+    for sub in ("model", "proofs", "props"):
+      for d, _, fs in os.walk(os.path.join(COQ, sub)):
+          for f in fs:
+              if not f.endswith(".v"):
+                  continue
+              p = os.path.join(d, f)
+              if only is not None and os.path.relpath(p, COQ) not in only:
+                  continue
+              body = strip_comments(open(p).read())
+              for ln, line in enumerate(body.split("\n"), 1):
+                  if AUDIT_RE.search(line):
+                      bad.append((os.path.relpath(p, VERIF), line.strip()))
+                  if re.match(r"\s*(Variable|Variables|Hypothesis|Hypotheses|Context)\b", line):
+                      # allowed only inside a Section: checked structurally
+                      if not _inside_section(body, ln):
+                          bad.append((os.path.relpath(p, VERIF), "section-less " + line.strip()))
     proj = open(os.path.join(COQ, "_CoqProject")).read()
     if re.search(r"type-in-type|impredicative-set", proj):
         bad.append(("coq/_CoqProject", "forbidden flag"))
